@@ -6,6 +6,10 @@ ALL = ['C%02d' % i for i in range(1, 21)]
 
 # id -> (engine, technique, level text, level note, design ref)
 CLAIMED = {
+ 'C01': ('E1-libfuzzer', 'coverage-guided fuzzing (libFuzzer fork mode, 6 entry-point families x pool on/off) with ASan+UBSan as the oracle, plus structured regression inputs',
+         'Every text-accepting entry point (convert in all 13 formats / 17 extension bits / 7 languages / 7 API shapes, metadata, CriticMarkup, OPML and ITMZ import, transclusion) is fuzzed from the corpus in builds with and without the token pool; any sanitizer report, signal or abort is a violation. Held on everything executed; absence is not established.',
+         'Trusted: clang ASan/UBSan/libFuzzer. miniz.c is built without UBSan. Inputs are cut at the first NUL for C-string APIs. Timeouts/OOM artifacts are not verdicts.',
+         'DESIGN.md section 5, C01'),
  'C19': ('E2-rapidcheck', 'model-based stateful property testing (rapidcheck state machine vs. std::string model) under ASan+UBSan',
          'Random command sequences over all 13 DString operations with boundary-value arguments are executed against the real '
          'DString and an ideal string model; every field invariant is compared after every command. Held on everything generated; absence of defects is not established.',
